@@ -84,12 +84,23 @@ def impl(case):
     index = {}
     build(case["tree"], names, cls, None, index)
     out = []
+    shared = None
     for q in case["queries"]:
         if q["fn"] == "rename":
             setattr(index[q["label"]], pathattr, q["name"])      # renamed between two queries
             out.append({"ok": None})
             continue
-        r = Resolver(pathattr, ignorecase=q["ignorecase"], relax=q["relax"])
+        if case.get("reuse"):
+            # one Resolver object for the whole case: its public attributes are reassigned between the calls
+            if shared is None:
+                shared = Resolver(pathattr, ignorecase=q["ignorecase"], relax=q["relax"])
+                if not all(hasattr(shared, a) for a in ("ignorecase", "relax")):
+                    return {"skip": "resolver settings are not public attributes"}
+            shared.ignorecase = q["ignorecase"]
+            shared.relax = q["relax"]
+            r = shared
+        else:
+            r = Resolver(pathattr, ignorecase=q["ignorecase"], relax=q["relax"])
         start = index[q["start"]]
         try:
             if q["fn"] == "get":
